@@ -1,10 +1,688 @@
-/- Proofs/C02: helper lemmas for Props/C02 (core Lean only). -/
+/-
+Proofs/C02: helper lemmas for Props/C02 (core Lean only).
+
+Part A  the core invariant `CInv` of the `Crazyflie` object closed with a conformant device, and for every core
+        operation the finite list `shapes` of possible (outputs, next phase) together with the facts about
+        `connected` / `fully_connected`;
+Part B  the blocking wrapper and the specification automaton: one exhaustive evaluation (`check_all`, by `decide`)
+        over all wrapper states × phases × operations × output shapes;
+Part C  the two glued together: `step_sound`, `run_sound`.
+-/
 import CfVerif.Spec.C02
 namespace CfVerif.C02
 
-/-! ### the regenerated fan-out table, as the model reads it -/
 theorem errCallers_init : errCallers St.init.code = ["connection_failed"] := by decide
 theorem errCallers_conn : errCallers St.conn.code = ["disconnected", "connection_lost"] := by decide
 theorem errCallers_disc : errCallers St.disc.code = ["disconnected_link_error"] := by decide
+
+theorem callAll_init (s : S) : callAll (errCallers St.init.code) s = emit .failed s := by
+  simp [errCallers_init, callAll, callByName, andThen, pureS]
+theorem callAll_conn (s : S) : callAll (errCallers St.conn.code) s = (disconnectedCall s >>> emit .lost) := by
+  simp [errCallers_conn, callAll, callByName, andThen, pureS]
+theorem callAll_disc (s : S) : callAll (errCallers St.disc.code) s = emit .discLinkError s := by
+  simp [errCallers_disc, callAll, callByName, andThen, pureS]
+
+/-- `_link_error_cb`, with the regenerated table evaluated -/
+theorem linkErrorCb_eq (s : S) : linkErrorCb s =
+    match s.st with
+    | .init => ({ s with link := false, inq := [], stage := .idle, st := .disc }, [.linkFailed, .cb .failed])
+    | .conn => ({ s with link := false, inq := [], stage := .idle, st := .disc,
+                         upd := { s.upd with q := [], locked := false }, parToc := 0, vals := [], connTs := false, exts := if s.fixD21 then [] else s.exts },
+                [.linkFailed, .cb .disconnected, .cb .lost])
+    | .disc => ({ s with link := false, inq := [], stage := .idle, st := .disc }, [.linkFailed, .cb .discLinkError]) := by
+  cases h : s.st <;>
+    simp [linkErrorCb, h, callAll_init, callAll_conn, callAll_disc, emit, disconnectedCall, andThen]
+
+def updOk (s : S) : Prop :=
+  (s.upd.locked = true → ∃ id, s.upd.pat = some id ∧ s.inq = [.val id]) ∧ (s.upd.locked = false → s.inq = [])
+
+def extOk (d : Dev) (s : S) (e : ExtF) : Prop :=
+  1 ≤ e.count ∧ e.count = e.q.length + (if e.locked then 1 else 0) ∧ s.extGot + e.count = d.extIds.length ∧
+  (e.locked = true → ∃ id, e.req = some id ∧ s.inq = [.ext id]) ∧ (e.locked = false → e.req = none ∧ s.inq = [])
+
+def stageOk (d : Dev) (s : S) : Prop :=
+  match s.stage with
+  | .idle => False
+  | .src => s.inq = [.src] ∧ s.parToc = 0
+  | .ver => s.inq = [.ver] ∧ s.parToc = 0
+  | .logReset => s.inq = [.logReset] ∧ s.parToc = 0
+  | .logInfo => s.inq = [.logInfo] ∧ s.logGot = 0 ∧ s.parToc = 0
+  | .logItem i => s.inq = [.logItem i] ∧ i < d.nLog ∧ s.logGot = i ∧ s.parToc = 0
+  | .memCount => s.inq = [.memCount] ∧ s.logGot = d.nLog ∧ s.parToc = 0
+  | .memInfo j => s.inq = [.memInfo j] ∧ j < d.nMem ∧ s.logGot = d.nLog ∧ s.parToc = 0
+  | .parInfo => s.inq = [.parInfo] ∧ s.logGot = d.nLog ∧ s.parToc = 0
+  | .parItem i => s.inq = [.parItem i] ∧ i < d.nPar ∧ s.parToc = i ∧ s.logGot = d.nLog
+  | .ext => s.logGot = d.nLog ∧ s.parToc = d.nPar ∧ ∃ e, s.exts = [e] ∧ extOk d s e
+  | .up => s.logGot = d.nLog ∧ s.parToc = d.nPar ∧ s.extGot = d.extIds.length ∧ updOk s
+
+structure CInv (d : Dev) (s : S) : Prop where
+  linkDown : s.link = false → s.stage = .idle ∧ s.exts = [] ∧ s.upd.q = [] ∧ s.upd.locked = false ∧ s.inq = []
+  linkSt : s.link = true → (s.st = .init ∧ s.initCb = true ∧ s.stage = .src) ∨ (s.st = .conn ∧ s.initCb = false)
+  linkStage : s.link = true → stageOk d s
+  extsNil : s.stage ≠ .ext → s.exts = []
+  updIdle : s.stage ≠ .up → s.upd.q = [] ∧ s.upd.locked = false
+  fresh : s.link = true → s.stage ≠ .up → s.isUpdated = false
+  extGot0 : s.link = true → (s.stage ≠ .ext ∧ s.stage ≠ .up) → s.extGot = 0
+  ts : s.connTs = true → s.link = true ∧ s.stage = .up
+  fixed : s.fixD21 = true
+
+
+/-- closes a `CInv` goal for an explicitly computed state -/
+macro "cinv_tac" : tactic =>
+  `(tactic| (constructor <;> first
+      | (simp; done)
+      | (simp <;> grind [stageOk, updOk, extOk, List.isEmpty_iff])
+      | grind [stageOk, updOk, extOk]))
+
+theorem cinv_init (d : Dev) : CInv d S.init := by
+  constructor <;> first | decide | simp [S.init]
+
+def E : List Out := [.linkFailed, .cb .failed]
+def L : List Out := [.linkFailed, .cb .disconnected, .cb .lost]
+
+theorem err_core (d : Dev) (s : S) (h : CInv d s) (hl : s.link = true) :
+    CInv d (linkErrorCb s).1 ∧ phase (linkErrorCb s).1 = .idle ∧
+    ((phase s = .req ∧ (linkErrorCb s).2 = E) ∨ (phase s ≠ .req ∧ phase s ≠ .idle ∧ (linkErrorCb s).2 = L)) := by
+  obtain ⟨h1, h2, h3, h4, h5, h6, h7, h8, h9⟩ := h
+  have h2' := h2 hl
+  rw [linkErrorCb_eq]
+  cases hs : s.st
+  · simp [hs] at h2'
+  · simp only [hs] at h2'
+    refine ⟨?_, ?_, ?_⟩
+    · constructor <;> grind
+    · simp [phase]
+    · simp [phase, hl, hs, E]
+  · refine ⟨?_, ?_, ?_⟩
+    · constructor <;> grind
+    · simp [phase]
+    · right; simp only [phase, hl, hs, L]; grind
+
+/-- core operation kinds -/
+inductive CK | openOk | openNo | deliver | work | err | close
+  deriving DecidableEq, Repr
+
+def coreRun (d : Dev) (s : S) : CK → R
+  | .openOk => openLink true s
+  | .openNo => openLink false s
+  | .deliver => deliver d s
+  | .work => work s
+  | .err => linkErrorCb s
+  | .close => closeLink s
+
+/-- every possible (outputs, next phase) of a core operation, by the phase it starts in -/
+def shapes : CK → Ph → List (List Out × Ph)
+  | .openNo, _ => [([.cb .requested, .cb .failed], .idle)]
+  | .openOk, _ => [([.cb .requested], .req), (.cb .requested :: E, .idle)]
+  | .deliver, .idle => [([], .idle)]
+  | .deliver, .req => [([.cb .established], .est), (.cb .established :: L, .idle)]
+  | .deliver, .est => [([], .est), (L, .idle), ([.cb .connected], .con)]
+  | .deliver, .con => [([], .con), ([.cb .fully], .ful)]
+  | .deliver, .ful => [([], .ful)]
+  | .work, .idle => [([], .idle)]
+  | .work, .req => [([], .req)]
+  | .work, ph => [([], ph), (L, .idle)]
+  | .err, .req => [(E, .idle)]
+  | .err, _ => [(L, .idle)]
+  | .close, .idle => [([.cb .disconnected], .idle)]
+  | .close, .req => [([.cb .disconnected], .idle), (E ++ [.cb .disconnected], .idle)]
+  | .close, _ => [([.cb .disconnected], .idle), (L ++ [.cb .disconnected], .idle)]
+
+theorem send_ok (r : Option Pkt) (s : S) (hl : s.link = true) (ha : s.armed = false) :
+    send r s = ({ s with inq := s.inq ++ r.toList }, []) := by
+  simp [send, hl, ha, pureS]
+
+theorem send_fail (r : Option Pkt) (s : S) (hl : s.link = true) (ha : s.armed = true) :
+    send r s = linkErrorCb { s with armed := false } := by
+  simp [send, hl, ha]
+
+theorem deliver_init (d : Dev) (s : S) (h : CInv d s) (hl : s.link = true) (hs : s.st = .init) :
+    CInv d (deliver d s).1 ∧ ((deliver d s).2, phase (deliver d s).1) ∈ shapes .deliver .req := by
+  obtain ⟨h1, h2, h3, h4, h5, h6, h7, h8, h9⟩ := h
+  have h2' := h2 hl
+  have h3' := h3 hl
+  simp only [hs, true_and, reduceCtorEq, false_and, or_false] at h2'
+  obtain ⟨hcb, hstage⟩ := h2'
+  simp only [stageOk, hstage] at h3'
+  obtain ⟨hinq, hpar⟩ := h3'
+  obtain ⟨st, link, initCb, inq, armed, stage, upd, exts, parToc, vals, isUpdated, connTs, logGot, extGot, fx⟩ := s
+  simp only at *
+  subst hl hs hcb hstage hinq hpar
+  cases armed <;> cases hm : d.magic <;>
+    simp [deliver, chainPacket, startLog, send, linkErrorCb_eq, emit, andThen, pureS, hm, shapes, phase, E, L] <;>
+    constructor <;> grind [stageOk]
+
+theorem extIdsFrom_length_le (i : Nat) (bs : List Bool) : (extIdsFrom i bs).length ≤ bs.length := by
+  induction bs generalizing i with
+  | nil => simp [extIdsFrom]
+  | cons b bs ih =>
+    simp only [extIdsFrom]
+    split
+    · simp only [List.length_cons]; have := ih (i + 1); omega
+    · simp only [List.length_cons]; have := ih (i + 1); omega
+
+theorem extIds_length_le (d : Dev) : d.extIds.length ≤ d.nPar := extIdsFrom_length_le 0 d.ext
+
+theorem deliver_chain (d : Dev) (s : S) (h : CInv d s) (hl : s.link = true) (hs : s.st = .conn)
+    (hne : s.stage ≠ .ext) (hnu : s.stage ≠ .up) :
+    CInv d (deliver d s).1 ∧ ((deliver d s).2, phase (deliver d s).1) ∈ shapes .deliver .est ∧
+    (.cb .connected ∈ (deliver d s).2 → complete d (deliver d s).1) ∧ .cb .fully ∉ (deliver d s).2 := by
+  obtain ⟨h1, h2, h3, h4, h5, h6, h7, h8, h9⟩ := h
+  have h2' := h2 hl
+  have h3' := h3 hl
+  have h4' := h4 hne
+  have h5' := h5 hnu
+  have h7' := h7 hl ⟨hne, hnu⟩
+  simp only [hs, true_and, reduceCtorEq, false_and, false_or] at h2'
+  obtain ⟨st, link, initCb, inq, armed, stage, upd, exts, parToc, vals, isUpdated, connTs, logGot, extGot, fx⟩ := s
+  obtain ⟨q, locked, pat⟩ := upd
+  simp only at *
+  subst hl hs h2' h4' h7'
+  obtain ⟨hq, hlk⟩ := h5'
+  subst hq hlk
+  have hext := extIds_length_le d
+  have hext0 : d.nPar = 0 → d.extIds = [] := fun h => List.length_eq_zero_iff.mp (by omega)
+  have hpos : d.extIds ≠ [] → 1 ≤ d.extIds.length := fun h => List.length_pos_iff.mpr h
+  cases stage <;> simp only [stageOk] at h3' <;> try contradiction
+  all_goals (
+    obtain ⟨hinq, hrest⟩ := h3'
+    subst hinq
+    cases armed <;>
+    simp only [deliver, chainPacket, startLog, startMems, startParamToc, paramTocDone, paramTocUpdated, send,
+      linkErrorCb_eq, emit, andThen, pureS, Bool.false_eq_true, if_false, if_true, not_true_eq_false, not_false_eq_true,
+      List.append_nil, List.nil_append, Option.toList, ne_eq, not_true, decide_true, decide_false] <;>
+    (repeat' split) <;>
+    (refine ⟨?_, ?_, ?_, ?_⟩ <;> first
+      | (constructor <;> simp <;> grind [stageOk, updOk, extOk, List.isEmpty_iff])
+      | (simp [shapes, phase, E, L, complete] <;> omega)
+      | (simp [shapes, phase, E, L, complete]; done)
+      | (simp [shapes, phase, E, L, complete, List.isEmpty_iff] at * <;> grind)))
+
+theorem deliver_ext (d : Dev) (s : S) (h : CInv d s) (hl : s.link = true) (hs : s.st = .conn) (hst : s.stage = .ext) :
+    CInv d (deliver d s).1 ∧ ((deliver d s).2, phase (deliver d s).1) ∈ shapes .deliver .est ∧
+    (.cb .connected ∈ (deliver d s).2 → complete d (deliver d s).1) ∧ .cb .fully ∉ (deliver d s).2 := by
+  obtain ⟨h1, h2, h3, h4, h5, h6, h7, h8, h9⟩ := h
+  have h2' := h2 hl
+  have h3' := h3 hl
+  have h5' := h5 (by simp [hst])
+  have h6' := h6 hl (by simp [hst])
+  simp only [hs, true_and, reduceCtorEq, false_and, false_or] at h2'
+  obtain ⟨st, link, initCb, inq, armed, stage, upd, exts, parToc, vals, isUpdated, connTs, logGot, extGot, fx⟩ := s
+  obtain ⟨q, locked, pat⟩ := upd
+  simp only at *
+  subst hl hs h2' hst h6'
+  obtain ⟨hq, hlk⟩ := h5'
+  subst hq hlk
+  simp only [stageOk] at h3'
+  obtain ⟨hlog, hpar, e, he, hc1, hc2, hc3, hc4, hc5⟩ := h3'
+  obtain ⟨eq, elocked, ereq, ecount⟩ := e
+  simp only at *
+  subst he
+  cases elocked
+  · -- nothing received
+    obtain ⟨hr, hi⟩ := hc5 rfl
+    subst hr hi
+    simp only [deliver, pureS]
+    refine ⟨?_, by simp [shapes, phase], by simp, by simp⟩
+    constructor <;> simp <;> grind [stageOk, extOk]
+  · obtain ⟨id, hr, hi⟩ := hc4 rfl
+    subst hr hi
+    by_cases hlast : ecount = 1
+    · subst hlast
+      simp [deliver, extPacket, extAll, extOne, paramTocUpdated, emit, andThen, pureS, shapes, phase, complete]
+      refine ⟨?_, by omega⟩
+      constructor <;> simp <;> grind [stageOk, updOk]
+    · simp [deliver, extPacket, extAll, extOne, emit, andThen, pureS, shapes, phase, hlast]
+      constructor <;> simp <;> grind [stageOk, extOk]
+
+theorem deliver_up (d : Dev) (s : S) (h : CInv d s) (hl : s.link = true) (hs : s.st = .conn) (hst : s.stage = .up) :
+    CInv d (deliver d s).1 ∧ ((deliver d s).2, phase (deliver d s).1) ∈ shapes .deliver (phase s) ∧
+    .cb .connected ∉ (deliver d s).2 ∧ (.cb .fully ∈ (deliver d s).2 → allVals d (deliver d s).1) := by
+  obtain ⟨h1, h2, h3, h4, h5, h6, h7, h8, h9⟩ := h
+  have h2' := h2 hl
+  have h3' := h3 hl
+  have h4' := h4 (by simp [hst])
+  simp only [hs, true_and, reduceCtorEq, false_and, false_or] at h2'
+  obtain ⟨st, link, initCb, inq, armed, stage, upd, exts, parToc, vals, isUpdated, connTs, logGot, extGot, fx⟩ := s
+  obtain ⟨q, locked, pat⟩ := upd
+  simp only at *
+  subst hl hs h2' hst h4'
+  simp only [stageOk, updOk] at h3'
+  obtain ⟨hlog, hpar, hext, hu1, hu2⟩ := h3'
+  cases locked
+  · have hi := hu2 rfl
+    subst hi
+    simp only [deliver, pureS]
+    refine ⟨?_, ?_, by simp, by simp⟩
+    · constructor <;> simp <;> grind [stageOk, updOk]
+    · cases isUpdated <;> simp [shapes, phase]
+  · obtain ⟨id, hp, hi⟩ := hu1 rfl
+    subst hp hi
+    simp only [deliver, valPacket, emit, andThen, pureS]
+    by_cases hid : id < parToc <;> cases isUpdated <;> simp [hid, shapes, phase]
+    all_goals (try split)
+    all_goals (first
+      | (refine ⟨?_, ?_⟩ <;> first
+          | (constructor <;> simp <;> grind [stageOk, updOk])
+          | (simp [shapes, phase, allVals, List.all_eq_true] at * <;> grind))
+      | (constructor <;> simp <;> grind [stageOk, updOk]))
+
+theorem phase_down (s : S) (h : s.link = false) : phase s = .idle := by simp [phase, h]
+theorem phase_init (s : S) (h : s.link = true) (hs : s.st = .init) : phase s = .req := by simp [phase, h, hs]
+theorem phase_est (s : S) (h : s.link = true) (hs : s.st = .conn) (hu : s.stage ≠ .up) : phase s = .est := by
+  simp [phase, h, hs, hu]
+
+theorem deliver_core (d : Dev) (s : S) (h : CInv d s) :
+    CInv d (deliver d s).1 ∧ ((deliver d s).2, phase (deliver d s).1) ∈ shapes .deliver (phase s) ∧
+    (.cb .connected ∈ (deliver d s).2 → complete d (deliver d s).1) ∧
+    (.cb .fully ∈ (deliver d s).2 → allVals d (deliver d s).1) := by
+  cases hl : s.link
+  · have : deliver d s = (s, []) := by simp [deliver, hl, pureS]
+    rw [this, phase_down s hl]
+    exact ⟨h, by simp [shapes], by simp, by simp⟩
+  · cases hs : s.st
+    · have := h.linkSt hl; simp [hs] at this
+    · have := deliver_init d s h hl hs
+      rw [phase_init s hl hs]
+      refine ⟨this.1, this.2, ?_, ?_⟩ <;> intro hm <;> have h2 := this.2 <;>
+        simp only [shapes, List.mem_cons, Prod.mk.injEq, List.not_mem_nil, or_false] at h2 <;>
+        rcases h2 with ⟨h2, _⟩ | ⟨h2, _⟩ <;> rw [h2] at hm <;> simp [L] at hm
+    · by_cases hu : s.stage = .up
+      · have := deliver_up d s h hl hs hu
+        exact ⟨this.1, this.2.1, fun hm => absurd hm this.2.2.1, this.2.2.2⟩
+      · rw [phase_est s hl hs hu]
+        by_cases he : s.stage = .ext
+        · have := deliver_ext d s h hl hs he
+          exact ⟨this.1, this.2.1, this.2.2.1, fun hm => absurd hm this.2.2.2⟩
+        · have := deliver_chain d s h hl hs he hu
+          exact ⟨this.1, this.2.1, this.2.2.1, fun hm => absurd hm this.2.2.2⟩
+
+theorem work_core (d : Dev) (s : S) (h : CInv d s) :
+    CInv d (work s).1 ∧ ((work s).2, phase (work s).1) ∈ shapes .work (phase s) ∧
+    .cb .connected ∉ (work s).2 ∧ .cb .fully ∉ (work s).2 := by
+  obtain ⟨h1, h2, h3, h4, h5, h6, h7, h8, h9⟩ := h
+  obtain ⟨st, link, initCb, inq, armed, stage, upd, exts, parToc, vals, isUpdated, connTs, logGot, extGot, fx⟩ := s
+  obtain ⟨q, locked, pat⟩ := upd
+  simp only at *
+  cases link
+  · obtain ⟨a, b, c, e, f⟩ := h1 rfl
+    subst a b c e f
+    simp [work, workExt, pureS, shapes, phase]
+    cinv_tac
+  · have h2' := h2 rfl
+    have h3' := h3 rfl
+    by_cases hu : stage = .up
+    · subst hu
+      have h4' := h4 (by simp)
+      subst h4'
+      simp only [reduceCtorEq, and_false, false_or] at h2'
+      obtain ⟨hst, hcb⟩ := h2'
+      subst hst hcb
+      simp only [stageOk, updOk] at h3'
+      obtain ⟨hlog, hpar, hext, hu1, hu2⟩ := h3'
+      cases locked
+      · have := hu2 rfl
+        subst this
+        cases q with
+        | nil =>
+          simp [work, workExt, pureS, shapes, phase]
+          refine ⟨?_, by cases isUpdated <;> simp⟩
+          constructor <;> simp <;> grind [stageOk, updOk]
+        | cons id q =>
+          cases armed <;> cases isUpdated <;>
+            simp [work, workUpdater, send, linkErrorCb_eq, pureS, shapes, phase, L] <;>
+            constructor <;> simp <;> grind [stageOk, updOk]
+      · simp [work, workExt, pureS, shapes, phase]
+        refine ⟨?_, by cases isUpdated <;> simp⟩
+        constructor <;> simp <;> grind [stageOk, updOk]
+    · obtain ⟨hq, hlk⟩ := h5 hu
+      subst hq hlk
+      by_cases he : stage = .ext
+      · subst he
+        simp only [reduceCtorEq, and_false, false_or] at h2'
+        obtain ⟨hst, hcb⟩ := h2'
+        subst hst hcb
+        simp only [stageOk] at h3'
+        obtain ⟨hlog, hpar, e, hee, hc1, hc2, hc3, hc4, hc5⟩ := h3'
+        obtain ⟨eq, elocked, ereq, ecount⟩ := e
+        simp only at *
+        subst hee
+        cases elocked
+        · obtain ⟨hr, hi⟩ := hc5 rfl
+          subst hr hi
+          cases eq with
+          | nil => simp at hc2; omega
+          | cons id eq =>
+            cases armed <;>
+              simp [work, workExt, send, linkErrorCb_eq, pureS, shapes, phase, L] <;>
+              constructor <;> simp <;> grind [stageOk, extOk]
+        · simp [work, workExt, pureS, shapes, phase]
+          constructor <;> simp <;> grind [stageOk, extOk]
+      · have h4' := h4 he
+        subst h4'
+        simp only [work, workExt, pureS, ne_eq, not_true_eq_false, false_and, if_false, List.not_mem_nil,
+          not_false_eq_true, and_self, and_true]
+        refine ⟨?_, ?_⟩
+        · constructor <;> simp <;> grind
+        · rcases h2' with ⟨a, b, c⟩ | ⟨a, b⟩
+          · subst a b c; simp [shapes, phase]
+          · subst a b; simp [shapes, phase, hu]
+
+theorem open_core (d : Dev) (s : S) (f : Bool) (h : CInv d s) (hl : s.link = false) :
+    CInv d (openLink f s).1 ∧
+    ((openLink f s).2, phase (openLink f s).1) ∈ shapes (if f then .openOk else .openNo) (phase s) := by
+  obtain ⟨h1, h2, h3, h4, h5, h6, h7, h8, h9⟩ := h
+  obtain ⟨st, link, initCb, inq, armed, stage, upd, exts, parToc, vals, isUpdated, connTs, logGot, extGot, fx⟩ := s
+  obtain ⟨q, locked, pat⟩ := upd
+  simp only at *
+  subst hl
+  obtain ⟨a, b, c, e, g⟩ := h1 rfl
+  subst a b c e g
+  cases f <;> cases armed <;>
+    simp [openLink, send, linkErrorCb_eq, emit, andThen, pureS, shapes, phase, E] <;>
+    cinv_tac
+
+theorem close_core (d : Dev) (s : S) (h : CInv d s) :
+    CInv d (closeLink s).1 ∧ ((closeLink s).2, phase (closeLink s).1) ∈ shapes .close (phase s) := by
+  obtain ⟨h1, h2, h3, h4, h5, h6, h7, h8, h9⟩ := h
+  obtain ⟨st, link, initCb, inq, armed, stage, upd, exts, parToc, vals, isUpdated, connTs, logGot, extGot, fx⟩ := s
+  obtain ⟨q, locked, pat⟩ := upd
+  simp only at *
+  cases link
+  · simp [closeLink, send, disconnectedCall, emit, andThen, pureS, shapes, phase]
+    cinv_tac
+  · have h2' := h2 rfl
+    rcases h2' with ⟨a, b, c⟩ | ⟨a, b⟩
+    · subst a b c
+      cases armed <;>
+        simp [closeLink, send, linkErrorCb_eq, disconnectedCall, emit, andThen, pureS, shapes, phase, E] <;>
+        cinv_tac
+    · subst a b
+      by_cases hu : stage = .up <;> cases isUpdated <;> cases armed <;>
+        simp [closeLink, send, linkErrorCb_eq, disconnectedCall, emit, andThen, pureS, shapes, phase, L, hu] <;>
+        cinv_tac
+
+/-! ## Part B: the wrapper and the specification automaton, by exhaustive evaluation over the finite
+wrapper state × phase × output shape -/
+
+def wOk (w : Wrap) (ph : Ph) : Bool :=
+  w.fixD1 && (!w.waitOpen || (w.cbReg && w.cev && !w.cset && !w.isOpen && (ph == .req || ph == .est))) &&
+  (w.waitOpen || (!w.cev && !w.cset)) &&
+  !w.waitClose && !w.dev && !w.dset &&
+  (!w.isOpen || (w.cbReg && ph.isConnected)) &&
+  (!w.cbReg || (ph.linked && (w.waitOpen || w.isOpen)))
+
+def absW (ph : Ph) (w : Wrap) : W := { ph := ph, expect := [], sync := w.cbReg, syncWait := w.waitOpen }
+
+/-- the core part of an operation (what happens on the `Crazyflie` object) -/
+def coreOf (d : Dev) (c : S) (isOpen : Bool) : Op → R
+  | .open f => openLink f c
+  | .deliver => deliver d c
+  | .work => work c
+  | .err => linkErrorCb c
+  | .arm => ({ c with armed := true }, [])
+  | .close => closeLink c
+  | .syncOpen f => if isOpen then (c, []) else openLink f c
+  | .syncClose => if isOpen then closeLink c else (c, [])
+
+/-- the wrapper part, given the outputs of the core part -/
+def stepW (w : Wrap) (op : Op) (outs : List Out) : Wrap × List Out :=
+  match op with
+  | .syncOpen _ =>
+      if w.isOpen then (w, [.openAlreadyOpen])
+      else
+        let w1 := wrapOuts { w with cbReg := true, cev := true, cset := false } outs
+        let x := settle { w1 with waitOpen := true }
+        (x.1, outs ++ x.2)
+  | .syncClose =>
+      if w.isOpen then
+        let w1 := wrapOuts { w with dev := true, dset := false } outs
+        let x := settle { w1 with waitClose := true }
+        (x.1, outs ++ x.2)
+      else (w, [.closeReturned])
+  | .arm => (w, [])
+  | _ =>
+      let x := settle (wrapOuts w outs)
+      (x.1, outs ++ x.2)
+
+theorem step_eq (d : Dev) (s : Sys) (op : Op) :
+    step d s op = ({ c := (coreOf d s.c s.w.isOpen op).1, w := (stepW s.w op (coreOf d s.c s.w.isOpen op).2).1 },
+                   (stepW s.w op (coreOf d s.c s.w.isOpen op).2).2) := by
+  cases op <;> simp only [step, lift, coreOf, stepW, wrapOuts, List.foldl_nil, List.nil_append]
+  · cases s.w.isOpen <;> simp
+  · cases s.w.isOpen <;> simp
+
+/-- possible (outputs, next phase) of the core part of each operation -/
+def shapesOp (op : Op) (ph : Ph) (isOpen : Bool) : List (List Out × Ph) :=
+  match op with
+  | .open f => shapes (if f then .openOk else .openNo) ph
+  | .deliver => shapes .deliver ph
+  | .work => shapes .work ph
+  | .err => shapes .err ph
+  | .arm => [([], ph)]
+  | .close => shapes .close ph
+  | .syncOpen f => if isOpen then [([], ph)] else shapes (if f then .openOk else .openNo) ph
+  | .syncClose => if isOpen then shapes .close ph else [([], ph)]
+
+def allowedW (w : Wrap) (ph : Ph) : Op → Bool
+  | .open _ => !ph.linked && !w.waitOpen && !w.waitClose
+  | .syncOpen _ => (!ph.linked || w.isOpen) && !w.waitOpen && !w.waitClose
+  | .syncClose => !w.waitOpen && !w.waitClose
+  | .err => ph.linked
+  | .arm => ph.linked
+  | .close => !w.waitClose
+  | .deliver => true
+  | .work => true
+
+/-- one operation: the wrapper invariant is kept and the specification automaton accepts the outputs, moving
+from the abstraction of the old state to the abstraction of the new one -/
+def checkOp (w : Wrap) (ph : Ph) (op : Op) : Bool :=
+  (shapesOp op ph w.isOpen).all fun sh =>
+    let x := stepW w op sh.1
+    wOk x.1 sh.2 && ((wfOp (absW ph w) op).bind (wfOuts · x.2) == some (absW sh.2 x.1))
+
+def allOps : List Op :=
+  [.open true, .open false, .deliver, .work, .err, .arm, .close, .syncOpen true, .syncOpen false, .syncClose]
+
+theorem allOps_complete (op : Op) : op ∈ allOps := by
+  cases op <;> (try rename_i f; cases f) <;> simp [allOps]
+
+set_option maxRecDepth 100000 in
+theorem check_all (a b c e f g h i j : Bool) (ph : Ph) (op : Op) :
+    let w : Wrap := ⟨a, b, c, e, f, g, h, i, j⟩
+    wOk w ph = true → allowedW w ph op = true → checkOp w ph op = true := by
+  have hop := allOps_complete op
+  revert hop op
+  simp only [allOps, List.mem_cons, List.not_mem_nil, or_false, forall_eq_or_imp, forall_eq]
+  cases ph <;> revert a b c e f g h i j <;> decide
+
+
+/-! ## Part C: gluing the core invariant and the finite check -/
+
+structure SInv (d : Dev) (s : Sys) : Prop where
+  core : CInv d s.c
+  wrap : wOk s.w (phase s.c) = true
+
+theorem sinv_init (d : Dev) : SInv d Sys.init := ⟨cinv_init d, by decide⟩
+
+theorem phase_linked {d : Dev} {c : S} (h : CInv d c) : (phase c).linked = c.link := by
+  cases hl : c.link
+  · simp [phase, hl, Ph.linked]
+  · rcases h.linkSt hl with ⟨a, _, _⟩ | ⟨a, _⟩ <;> simp only [phase, hl, a, if_true]
+    · rfl
+    · split
+      · split <;> rfl
+      · rfl
+
+theorem allowed_abs {d : Dev} {s : Sys} (h : SInv d s) (op : Op) (ha : allowed s op = true) :
+    allowedW s.w (phase s.c) op = true := by
+  have hp := phase_linked h.core
+  cases op <;> simp only [allowed, allowedW, hp] at * <;> simp_all
+
+theorem shapes_no_conn (k : CK) (ph : Ph) (hk : k ≠ .deliver) :
+    ∀ sh ∈ shapes k ph, Out.cb .connected ∉ sh.1 ∧ Out.cb .fully ∉ sh.1 := by
+  cases k <;> cases ph <;> first | contradiction | decide
+
+theorem core_shape (d : Dev) (s : Sys) (op : Op) (h : SInv d s) (ha : allowed s op = true) :
+    CInv d (coreOf d s.c s.w.isOpen op).1 ∧
+    ((coreOf d s.c s.w.isOpen op).2, phase (coreOf d s.c s.w.isOpen op).1) ∈ shapesOp op (phase s.c) s.w.isOpen ∧
+    (.cb .connected ∈ (coreOf d s.c s.w.isOpen op).2 → complete d (coreOf d s.c s.w.isOpen op).1) ∧
+    (.cb .fully ∈ (coreOf d s.c s.w.isOpen op).2 → allVals d (coreOf d s.c s.w.isOpen op).1) := by
+  have hc := h.core
+  have noc : ∀ (k : CK) (r : R), k ≠ .deliver → (r.2, phase r.1) ∈ shapes k (phase s.c) →
+      (.cb .connected ∈ r.2 → complete d r.1) ∧ (.cb .fully ∈ r.2 → allVals d r.1) := by
+    intro k r hk hm
+    have := shapes_no_conn k (phase s.c) hk _ hm
+    exact ⟨fun x => absurd x this.1, fun x => absurd x this.2⟩
+  cases op with
+  | «open» f =>
+    have hl : s.c.link = false := by simp [allowed] at ha; exact ha.1
+    have := open_core d s.c f hc hl
+    refine ⟨this.1, this.2, ?_⟩
+    exact noc _ _ (by cases f <;> simp) this.2
+  | deliver => exact deliver_core d s.c hc
+  | work =>
+    have := work_core d s.c hc
+    exact ⟨this.1, this.2.1, fun x => absurd x this.2.2.1, fun x => absurd x this.2.2.2⟩
+  | err =>
+    have hl : s.c.link = true := by simpa [allowed] using ha
+    have := err_core d s.c hc hl
+    refine ⟨this.1, ?_, ?_⟩
+    · simp only [coreOf, shapesOp, this.2.1]
+      rcases this.2.2 with ⟨a, b⟩ | ⟨a, a', b⟩
+      · rw [a, b]; simp [shapes]
+      · rw [b]; revert a a'; cases phase s.c <;> simp [shapes]
+    · have hm : ((linkErrorCb s.c).2, phase (linkErrorCb s.c).1) ∈ shapes .err (phase s.c) := by
+        rw [this.2.1]
+        rcases this.2.2 with ⟨a, b⟩ | ⟨a, a', b⟩
+        · rw [a, b]; simp [shapes]
+        · rw [b]; revert a a'; cases phase s.c <;> simp [shapes]
+      exact noc .err _ (by simp) hm
+  | arm =>
+    refine ⟨?_, ?_, by simp [coreOf], by simp [coreOf]⟩
+    · obtain ⟨h1, h2, h3, h4, h5, h6, h7, h8, h9⟩ := hc
+      constructor <;> simp only [coreOf] <;> first | assumption | (intro hl; have := h3 hl; simpa [stageOk, updOk, extOk] using this)
+    · simp only [coreOf, shapesOp, List.mem_singleton]; rfl
+  | close =>
+    have := close_core d s.c hc
+    exact ⟨this.1, this.2, noc .close _ (by simp) this.2⟩
+  | syncOpen f =>
+    cases ho : s.w.isOpen
+    · have hl : s.c.link = false := by simp [allowed, ho] at ha; exact ha.1
+      have := open_core d s.c f hc hl
+      simp only [coreOf, shapesOp, ho, Bool.false_eq_true, if_false]
+      exact ⟨this.1, this.2, noc _ _ (by cases f <;> simp) this.2⟩
+    · simp only [coreOf, shapesOp, if_true]
+      exact ⟨hc, by simp, by simp, by simp⟩
+  | syncClose =>
+    cases ho : s.w.isOpen
+    · simp only [coreOf, shapesOp, Bool.false_eq_true, if_false]
+      exact ⟨hc, by simp, by simp, by simp⟩
+    · have := close_core d s.c hc
+      simp only [coreOf, shapesOp, if_true]
+      exact ⟨this.1, this.2, noc .close _ (by simp) this.2⟩
+
+
+theorem check_all' (w : Wrap) (ph : Ph) (op : Op) (h : wOk w ph = true) (ha : allowedW w ph op = true) :
+    checkOp w ph op = true := by
+  obtain ⟨a, b, c, e, f, g, h', i, j⟩ := w
+  exact check_all a b c e f g h' i j ph op h ha
+
+theorem step_sound (d : Dev) (s : Sys) (op : Op) (h : SInv d s) (ha : allowed s op = true) :
+    SInv d (step d s op).1 ∧
+    (wfOp (absW (phase s.c) s.w) op).bind (wfOuts · (step d s op).2) =
+      some (absW (phase (step d s op).1.c) (step d s op).1.w) := by
+  have hcs := core_shape d s op h ha
+  have hchk := check_all' s.w (phase s.c) op h.wrap (allowed_abs h op ha)
+  simp only [checkOp, List.all_eq_true, Bool.and_eq_true, beq_iff_eq] at hchk
+  have := hchk _ hcs.2.1
+  rw [step_eq]
+  exact ⟨⟨hcs.1, this.1⟩, this.2⟩
+
+theorem run_sound (d : Dev) : ∀ (ops : List Op) (s : Sys), SInv d s → usage d s ops = true →
+    SInv d (run d s ops).1 ∧
+    wfRun (absW (phase s.c) s.w) (run d s ops).2 = some (absW (phase (run d s ops).1.c) (run d s ops).1.w) := by
+  intro ops
+  induction ops with
+  | nil => intro s h _; exact ⟨h, rfl⟩
+  | cons op ops ih =>
+    intro s h hu
+    simp only [usage, Bool.and_eq_true] at hu
+    have hs := step_sound d s op h hu.1
+    have := ih (step d s op).1 hs.1 hu.2
+    refine ⟨this.1, ?_⟩
+    simp only [run, wfRun]
+    rw [hs.2]
+    exact this.2
+
+theorem run_append (d : Dev) (s : Sys) (a b : List Op) :
+    run d s (a ++ b) = ((run d (run d s a).1 b).1, (run d s a).2 ++ (run d (run d s a).1 b).2) := by
+  induction a generalizing s with
+  | nil => simp [run]
+  | cons o os ih => simp only [List.cons_append, run, ih, List.cons_append]
+
+theorem usage_append (d : Dev) (s : Sys) (a b : List Op) :
+    usage d s (a ++ b) = (usage d s a && usage d (run d s a).1 b) := by
+  induction a generalizing s with
+  | nil => simp [usage, run]
+  | cons o os ih => simp only [List.cons_append, usage, run, ih, Bool.and_assoc]
+
+
+/-- the wrapper only adds return/raise markers: a Caller call in the outputs comes from the core part -/
+theorem stepW_cb_mem (w : Wrap) (op : Op) (outs : List Out) (e : Ev) (h : Out.cb e ∈ (stepW w op outs).2) :
+    Out.cb e ∈ outs := by
+  have hsettle : ∀ w' : Wrap, Out.cb e ∉ (settle w').2 := by
+    intro w'
+    simp only [settle]
+    split
+    · split <;> simp
+    · split <;> simp
+  cases op <;> simp only [stepW] at h
+  case syncOpen f =>
+    split at h
+    · simp at h
+    · rcases List.mem_append.mp h with h | h
+      · exact h
+      · exact absurd h (hsettle _)
+  case syncClose =>
+    split at h
+    · rcases List.mem_append.mp h with h | h
+      · exact h
+      · exact absurd h (hsettle _)
+    · simp at h
+  case arm => simp at h
+  all_goals (
+    rcases List.mem_append.mp h with h | h
+    · exact h
+    · exact absurd h (hsettle _))
+
+
+theorem wOk_wait (w : Wrap) (ph : Ph) (h : wOk w ph = true) :
+    (w.waitOpen = true → ph = .req ∨ ph = .est) ∧ w.waitClose = false := by
+  revert h
+  obtain ⟨a, b, c, e, f, g, h, i, j⟩ := w
+  cases ph <;> revert a b c e f g h i j <;> decide
+
+theorem wOk_idle (w : Wrap) (h : wOk w .idle = true) : w = { fixD1 := true } := by
+  revert h
+  obtain ⟨a, b, c, e, f, g, h, i, j⟩ := w
+  revert a b c e f g h i j; decide
+
+/-- re-opening after any history = opening a fresh object, up to the inert `_lock_pattern` -/
+theorem reopen_eq (d : Dev) (c : S) (h : CInv d c) (hl : c.link = false) (ha : c.armed = false) :
+    (openLink true c).1 = { (openLink true S.init).1 with upd := { q := [], locked := false, pat := c.upd.pat } } ∧
+    (openLink true c).2 = (openLink true S.init).2 := by
+  obtain ⟨h1, h2, h3, h4, h5, h6, h7, h8, h9⟩ := h
+  obtain ⟨x1, x2, x3, x4, x5⟩ := h1 hl
+  have hts : c.connTs = false := by
+    cases hc : c.connTs
+    · rfl
+    · have := (h8 hc).1; rw [hl] at this; cases this
+  obtain ⟨st, link, initCb, inq, armed, stage, upd, exts, parToc, vals, isUpdated, connTs, logGot, extGot, fx⟩ := c
+  obtain ⟨q, locked, pat⟩ := upd
+  simp only at *
+  subst hl ha x1 x2 x3 x4 x5 hts h9
+  simp [openLink, send, emit, andThen, pureS, S.init]
+  decide
 
 end CfVerif.C02
